@@ -17,8 +17,10 @@ SHARED = (
     "V - no in-place write through a view of caller-owned data or of an object's stored arrays (view-taint analysis); "
     "G - no one-shot iterator is consumed twice (typestate), nothing positional derives from the order of a set or of a caller's mapping, "
     "values computed on argsort-ed data are un-sorted with the inverse permutation; "
-    "D - no floating type narrower than double is named as a working or storage type; "
-    "S - every parameter of the pinned signatures that can be passed by position keeps its position; "
+    "D - no floating type narrower than double is named as a working or storage type, no branch is selected by the identity "
+    "of a comparison result with True / False; "
+    "S - every parameter of the pinned signatures that can be passed by position keeps its position and every pinned default "
+    "keeps its value (or one with which the function computes the same on every path); "
     "W - a decorated public function means the same for positional and keyword calls (decorators, properties, __setattr__, "
     "the MRO and name mangling are interpreted, not skipped), an override that delegates to super() forwards what it accepts; "
     "O - every rule of the property is evaluated again for each new optional parameter that one of the package's own callers "
